@@ -52,18 +52,20 @@ inductive Path where
   deriving Repr, DecidableEq
 
 /-- the records an arriving manifest (expiry `E`, wall ns) makes the node write at steady time
-    `now`; `none` = the manifest is rejected -/
-def writes (cfg : Cfg) (off now E : Int) : Path → Option (List Write)
+    `now`; `none` = the manifest is rejected.  `prev` is the deadline of the key-share record the
+    table already holds for the chunk id (0 = none): `publish_shards` as it stands replaces the record
+    and ignores it, the generated slice says so on every run -/
+def writes (cfg : Cfg) (off now E prev : Int) : Path → Option (List Write)
   | .ingest =>
     match ingest_ttl_source E cfg (now + off) with
     | none => none
-    | some ttl => some [⟨.shard, publish_shards_expires (ingest_shard_ttl ttl cfg) now⟩]
+    | some ttl => some [⟨.shard, publish_shards_expires (ingest_shard_ttl ttl cfg) now prev⟩]
   | .receive good =>
     match receive_ttl_source E cfg (now + off) with
     | none => none
     | some ttl =>
       if good then
-        some [⟨.shard, publish_shards_expires (receive_shard_ttl ttl cfg) now⟩,
+        some [⟨.shard, publish_shards_expires (receive_shard_ttl ttl cfg) now prev⟩,
               ⟨.contact "self", add_contact_expires (announce_chunk_contact_ttl (receive_announce_ttl ttl cfg)) now⟩,
               ⟨.chunk, Ttl.chunkStorePut cfg (receive_put_ttl ttl cfg) now⟩]
       else none
@@ -71,7 +73,7 @@ def writes (cfg : Cfg) (off now E : Int) : Path → Option (List Write)
     match announce_ttl_source E cfg (now + off) with
     | none => none
     | some ttl =>
-      some ([⟨.shard, publish_shards_expires (announce_shard_ttl ttl cfg) now⟩] ++
+      some ([⟨.shard, publish_shards_expires (announce_shard_ttl ttl cfg) now prev⟩] ++
             (if endpoint then [⟨.contact peer, add_contact_expires (announce_advertised_ttl attl ttl cfg) now⟩] else []) ++
             (if assigned && !replicaLive then [⟨.pending, pending_manifest_expires E cfg (now + off)⟩] else []))
 
@@ -86,6 +88,8 @@ structure Pending where
   deriving Repr, DecidableEq
 
 structure ChunkSt where
+  /-- expiry (wall ns) of the manifest the node has adopted for the chunk (`manifest_cache_`) -/
+  adopted : Option Int := none
   shard : Option Int := none
   contacts : List (String × Int) := []
   chunk : Option Int := none
@@ -112,9 +116,9 @@ def applyWrites (E : Int) (c : ChunkSt) (ws : List Write) : ChunkSt := ws.foldl 
 
 /-- one manifest arriving for a chunk whose state is `c`; returns the new state and "accepted?" -/
 def arrive (cfg : Cfg) (off now E : Int) (p : Path) (c : ChunkSt) : ChunkSt × Bool :=
-  match writes cfg off now E p with
+  match writes cfg off now E (c.shard.getD 0) p with
   | none => (c, false)
-  | some ws => (applyWrites E c ws, true)
+  | some ws => ({ applyWrites E c ws with adopted := some E }, true)
 
 /-- `manifest_expires != time_point{} && wall_now >= manifest_expires` -/
 def pendingDue (wall : Int) (p : Pending) : Bool := p.exp != 0 && decide (wall ≥ p.exp)
@@ -145,6 +149,7 @@ def observe (off now : Int) (c : ChunkSt) : Obs :=
   { shard := if live c.shard now then (c.shard.map (· + off)) else none
     contacts := (c.contacts.filter fun pc => decide (now < pc.2)).map fun pc => (pc.1, pc.2 + off)
     chunk := if live c.chunk now then (c.chunk.map (· + off)) else none
-    pending := c.pending.map (·.exp) }
+    pending := c.pending.map (·.exp)
+    manifest := c.adopted.filter fun e => decide (now + off < e) }
 
 end EphVerif.MTtl
